@@ -49,6 +49,13 @@ def generate(tier, seed):
     # type error inside the predicate, non-function predicate, non-list argument
     reqs.append(["(sort '(1 a 2) '<)"]); reqs.append(["(sort '(1 2) 'nosuchfn)"]); reqs.append(["(sort 5 '<)"])
     reqs.append(["(sort '(3 1 2) nil)"]); reqs.append(["(sort '(1 2 . 3) '<)"])
+    # elements that are not self-evaluating (symbols bound to numbers, lists that look like calls) with every kind of
+    # predicate: the predicate receives the elements themselves
+    for el in ["(a b c)", "(c a b a)", "((+ 1 2) (+ 0 1))", "((1 2) (0 1))", "('a 'b)", "(a 2 b 1)", "((a . 1) (b . 0))", "(:k a nil t)"]:
+        for p in ["'<", "'>", "'eq", "'equal", "'string<", "#'string<", "'h-two", "(lambda (p q) (tick 1) nil)", "(lambda (p q) (tick 1) t)",
+                  "(lambda (p q) (string< (format \"%s\" p) (format \"%s\" q)))", "'f2", "#'f2", "(let ((k 1)) (lambda (p q) (consp p)))"]:
+            reqs.append(["(setq a 3) (setq b 1) (setq c 2)", "(defun f2 (p q) (tick 9) (and (symbolp p) (symbolp q) (string< (format \"%s\" p) (format \"%s\" q))))",
+                         "(setq l '%s)" % el, "(sort l %s)" % p, "l", "(list a b c)"])
     big = [5000] if tier == "quick" else [5000, 20000, 50000]
     for n in big:
         xs = [rng.randint(0, 50) for _ in range(n)]
